@@ -22,5 +22,5 @@ def run(ctx):
         "component, autopilot) sources interleaved with other traffic and writes: exactly the seven requests per due heartbeat (the first of "
         "a sender, and every one at least 30 s after the sender's last burst - two long scenarios of 38 s and 63 s cross the "
         "cleaner's ticks and the period from both sides) on its channel, one event each, nothing for other autopilots / disabled / dialect lacking a standard message; distinct = scenario shapes"))
-    ctx.assumptions += ["heartbeat count tolerance: within 20 % +- 2 of window/period (Go tickers may compress gaps)",
+    ctx.assumptions += ["heartbeat count tolerance: -50 % / +20 % +- 2 of window/period (Go tickers drop ticks under load); spacing judged on the 500 ms scenario only",
                         "recorded times are the consumer's: heartbeats within 400 ms of the 30 s boundary are not judged (the scenarios avoid them)"]
